@@ -51,7 +51,7 @@ fn c06h_bcj2_decode_total() {
 // C11 (BCJ2, operand conversion): a CALL operand is stored big endian as an absolute address; the decoder must deliver
 // the little-endian relative value  be32(src) - (ip + 4)  - all four bytes of it, also when the destination buffer
 // ends in the middle of (or exactly behind) the operand and the rest is delivered by the next call.
-//@ {"name":"c11_bcj2_operand_conversion","props":["C11","C06"],"obligation":"C06-H","timeout":2400,"mem_gb":9,"functions":["filter::bcj2::decode::Bcj2Decoder::decode"],"bounds":"decoder resuming in the CALL-operand state (last opcode byte 0xE8) with one arbitrary 4-byte operand in the CALL window, MAIN window empty; instruction pointer any value < 2^31; first destination 0..=6 bytes (symbolic), second destination 8 bytes; unwind 10","assumes":["pre-state = what decode() leaves when it asked for more CALL-stream data (state == BCJ2_STREAM_CALL, range/code normalised)","ip < 2^31"]}
+//@ {"name":"c11_bcj2_operand_conversion","props":["C11","C06"],"tier":"thorough","obligation":"C06-H","timeout":3600,"mem_gb":9,"functions":["filter::bcj2::decode::Bcj2Decoder::decode"],"bounds":"decoder resuming in the CALL-operand state (last opcode byte 0xE8) with one arbitrary 4-byte operand in the CALL window, MAIN window empty; instruction pointer any value < 2^31; first destination 0..=6 bytes (symbolic), second destination 8 bytes; unwind 10","assumes":["pre-state = what decode() leaves when it asked for more CALL-stream data (state == BCJ2_STREAM_CALL, range/code normalised)","ip < 2^31"]}
 #[kani::proof]
 #[kani::unwind(10)]
 fn c11_bcj2_operand_conversion() {
